@@ -174,6 +174,18 @@ CHECKS.update({
          "Result types, principal complex values outside real domains, agreement to 2^-48 relative or 2^-300 absolute for every elementary function over all double magnitude classes.",
          OBL_NOTE + " Agreement is relative to mp, as the property is stated.", "DESIGN.md §4 C43"),
 })
+CHECKS.update({
+ "C24": (MC, "TLC liveness check of the retry/summation loop skeletons (LoopSkel, weak fairness) + TLC-judged call exits of real executions under a deterministic work budget",
+         "LoopSkel: hypsum/hypercomb and mpf_psi0 loops terminate structurally for every outcome of the numerics; the unguarded complex digamma loop does not (expected lasso). "
+         "Documentation statements are executed at the documented scale (function evaluations also at raised precision) under a budget of kernel-function starts counted by sys.monitoring; "
+         "each exit (return / documented exception / budget overrun) is judged by TLC.",
+         "Bounded observation: a work budget (8x retry) stands in for 'bounded amount of computation'; a correct implementation needing more would be flagged. Calculus routines are exercised at the documented scale only.",
+         "DESIGN.md §4 C24"),
+ "C37": (EX, "differential execution of one seeded operation stream under the python backend and under a pure-Python gmpy2 shim; outcomes compared and judged by TLC against the operation postconditions",
+         "mpmath's own backend-conditional code paths (gmpy_mpf_mul, gmpy_mpf_mul_int, bitcount/trailing, numeral, isqrt/ifac aliases, cutoffs) are executed through a shim and must give identical raw tuples to the python backend "
+         "and satisfy the C02/C03/C05/C06/C09 postconditions; elementary functions within 1 ulp.",
+         "gmpy2 itself is not installed and cannot be fetched: the C library half of the property is not exercised; the shim reproduces only gmpy2's Python-visible semantics.", "DESIGN.md §4 C37"),
+})
 
 ALL = ["C%02d" % i for i in range(1, 44)]
 NOT_APPLICABLE = {
